@@ -78,9 +78,21 @@ func c19Post(port, version int) (int, string, error) {
 
 var c19Seq int64
 
+// c19Get asks the dev server for its version. A successful reload restarts the listener (old one
+// closed, new one bound on its own goroutine a moment later), so a refused connection right after
+// reload() returns is retried for a while: the property is about a server that STAYS down, not
+// about the restart gap.
 func c19Get(port int) (int, string, error) {
 	cl := &http.Client{Timeout: evid.Stretch(3 * time.Second), Transport: &http.Transport{DisableKeepAlives: true}}
-	resp, err := cl.Get(fmt.Sprintf("http://127.0.0.1:%d/v", port))
+	var resp *http.Response
+	var err error
+	for deadline := time.Now().Add(evid.Stretch(5 * time.Second)); ; {
+		resp, err = cl.Get(fmt.Sprintf("http://127.0.0.1:%d/v", port))
+		if err == nil || time.Now().After(deadline) {
+			break
+		}
+		time.Sleep(20 * time.Millisecond)
+	}
 	if err != nil {
 		return 0, "", err
 	}
